@@ -139,7 +139,7 @@ def end_to_end(ctx):
     from androguard.decompiler.decompiler import DecompilerDAD
     from vf.model import dexw as W
     rng = ctx.rng("c24-e2e")
-    n = 40 if ctx.quick else 1200
+    n = 40 if ctx.quick else 6000
     for k in range(n):
         m = W.DexModel()
         classes = []
